@@ -1145,6 +1145,51 @@ def translate(repo):
           "Definition src_hdr_compare : list N := %s." % coq_bytes(hd["cmp"]),
           "Definition src_hdr_remove_method : list N := %s." % coq_bytes(hd["rm"]), ""]
 
+    # ---- src/head.rs: Head::try_read after read_head_bytes, statement by statement; literals of the two line parsers
+    tr, trlit = [], None
+    try:
+        hs = read(repo, "src/head.rs")
+        t = re.sub(r"\s+", "", fn_body(hs, "pub fn try_read"))
+        FORMS = [
+            (r"lethead=Self::read_head_bytes\(buf\)\?;", lambda m: "TRReadHeadBytes"),
+            (r"letmutlines=head\.split\(\|b\|\*b==b'(\\?.)'\)\.map\(trim_trailing_cr\);",
+             lambda m: "TRSplitLinesTrimCr %d" % rust_unescape(m.group(1))[0]),
+            (r"letrequest_line=lines\.next\(\)\.ok_or\(HeadError::(\w+)\)\?;",
+             lambda m: "TRFirstLineOr %s" % {"MissingRequestLine": "true"}.get(m.group(1), "false")),
+            (r"let\(method,url\)=Self::parse_request_line\(request_line\)\?;", lambda m: "TRParseRequestLine"),
+            (r"letmutheaders=HeaderList::new\(\);", lambda m: "TRNewHeaders"),
+            (r"forlineinlines\{letheader=Self::parse_header_line\(line\)\?;headers\.push\(header\);\}", lambda m: "TRForLinesParsePush"),
+            (r"Ok\(Self\{method,url,headers,\}\)$", lambda m: "TROkSelf"),
+        ]
+        while t:
+            for pat, mk in FORMS:
+                m = re.match(pat, t)
+                if m:
+                    tr.append(mk(m)); t = t[m.end():]
+                    break
+            else:
+                raise ValueError("try_read statement %r" % t[:70])
+        ph = re.sub(r"\s+", "", fn_body(hs, "fn parse_header_line"))
+        m = re.search(r"letvalue_bytes=trim_whitespace\(value_bytes\);if!value_bytes\.iter\(\)\.all\(\|&b\|b==b'(\\?.)'\|\|\(b'(\\?.?)'\.\.=b'(\\?.)'\)\.contains\(&b\)\)\{returnErr\(HeadError::MalformedHeader\);\}", ph)
+        if not m:
+            raise ValueError("parse_header_line: the field-value byte test")
+        pr = re.sub(r"\s+", "", fn_body(hs, "fn parse_request_line"))
+        m2 = re.search(r"if!url_string\.starts_with\('(.)'\)\{returnErr\(HeadError::MalformedPath\);\}", pr)
+        m3 = re.search(r'ifproto_bytes!=b"([^"]*)"\{returnErr\(HeadError::UnsupportedProtocol\);\}Ok\(\(method,url\)\)$', pr)
+        if not (m2 and m3):
+            raise ValueError("parse_request_line: the path / protocol tests")
+        trlit = (rust_unescape(m.group(1))[0], (rust_unescape(m.group(2)) or b' ')[0], rust_unescape(m.group(3))[0], m2.group(1).encode(), m3.group(1).encode())
+    except Exception as e:   # noqa
+        P.append("src/head.rs try_read: cannot translate (%s)" % e)
+        tr, trlit = [], (0, 0, 0, b"", b"")
+    L += ["(* src/head.rs Head::try_read, statement by statement; the byte test of parse_header_line (b == tab || (lo..=hi).contains(b)),",
+          "   the first character parse_request_line demands of the target and the protocol text it demands *)",
+          "Definition src_try_read : list tr_stmt := [%s]." % "; ".join(tr),
+          "Definition src_fv_tab : N := %d." % trlit[0], "Definition src_fv_lo : N := %d." % trlit[1], "Definition src_fv_hi : N := %d." % trlit[2],
+          "Definition src_target_first : list N := %s." % coq_bytes(trlit[3]),
+          "Definition src_protocol : list N := %s." % coq_bytes(trlit[4]), ""]
+
+
     # ---- src/head.rs: the two regex literals
     rx = []
     try:
@@ -1162,8 +1207,8 @@ def translate(repo):
 
     items = [("chunk", "src/util.rs"), ("event_queue", "src/response.rs event_stream"), ("conn_buf", "src/http_conn.rs HttpConn.buf"), ("conn_guards", "src/http_conn.rs state guards"),
              ("time", "src/time.rs"), ("content_type", "src/content_type.rs"), ("log_prio", "src/log/logger.rs log()"),
-             ("event_fmt", "src/event.rs"), ("regex", "src/head.rs"), ("cookie", "src/cookie.rs"), ("request", "src/request.rs"),
-             ("json", "src/log/tag_value.rs"), ("jsonl", "src/log/logger.rs write_jsonl"), ("writer", "src/log/log_file_writer.rs"), ("headers", "src/headers.rs"), ("pfs", "src/log/prefix_file_set.rs"), ("token_set", "src/token_set.rs"), ("write_response", "src/http_conn.rs write_response"), ("conn_loop", "src/http_conn.rs handle_http_conn"), ("resp_head", "src/response.rs write_http_response"), ("accept", "src/accept.rs accept_loop")]
+             ("event_fmt", "src/event.rs"), ("regex", "src/head.rs: cannot translate the regex"), ("cookie", "src/cookie.rs"), ("request", "src/request.rs"),
+             ("json", "src/log/tag_value.rs"), ("jsonl", "src/log/logger.rs write_jsonl"), ("writer", "src/log/log_file_writer.rs"), ("headers", "src/headers.rs"), ("pfs", "src/log/prefix_file_set.rs"), ("token_set", "src/token_set.rs"), ("write_response", "src/http_conn.rs write_response"), ("conn_loop", "src/http_conn.rs handle_http_conn"), ("resp_head", "src/response.rs write_http_response"), ("accept", "src/accept.rs accept_loop"), ("try_read", "src/head.rs try_read")]
     L.append("(* what the translator could not read, per item (0 everywhere = the translation is complete) *)")
     for key, prefix in items:
         L.append("Definition src_problems_%s : nat := %d." % (key, sum(1 for p in P if p.startswith(prefix))))
